@@ -33,4 +33,10 @@ PROPS = {
                      "cache); every ordered pair of pool requests (a, b, a) x Normalize on/off is enumerated, longer histories are "
                      "sampled; after every operation the response must equal graphql.Do from scratch and the entry count must respect "
                      "the configured bound; non-trivial = at least one cache hit or more than two operations; distinct = distinct scenarios"),
+    "C15": dict(level="exploration", race=False,
+                quick=dict(enum=True, seeds=4000), thorough=dict(enum=True, seconds=420),
+                rule="one evaluation = one simulated subscription: producer, library forwarder, per-event executors, consumer (prompt / "
+                     "slow / stops) and the cancellation action interleaved by the seeded scheduler over 0-5 events (ok / nullable failure "
+                     "/ non-null failure), plus subscribe-phase faults; non-trivial = at least one result was delivered or the context "
+                     "was cancelled; distinct = distinct scheduler trace hashes"),
 }
